@@ -381,14 +381,19 @@ def _define_raw_metadata(global_meta, composite_meta, include_meta,
                    'rotate', 'delete', 'include', 'source', 'background',
                    'fill', 'vector', 'textrotate')
 
+    # free-form text values are strings even if they look like numbers
+    # (e.g., text={123})
+    text_keys = ('text', 'tag')
+
     metadata = {}
     for key, value in all_meta.items():
-        try:
-            value = float(value)
-            if value.is_integer():
-                value = int(value)
-        except (ValueError, TypeError):
-            pass
+        if key not in text_keys:
+            try:
+                value = float(value)
+                if value.is_integer():
+                    value = int(value)
+            except (ValueError, TypeError):
+                pass
 
         is_invalid = False
         # point value can either be ["symbol int"] or ["symbol"]
